@@ -67,7 +67,7 @@ var Tokens = []string{
 	"<div>", "</div>", "<div", "<table>", "<p>", "</p>", "<a href=\"x\">", "</a>", "<b>", "</b>", "<x-y z='1'>", "<br/>", "<img src=x>",
 	// inline
 	"*", "**", "***", "_", "__", "`", "``", "` `", "[", "]", "(", ")", "![", "](", "](u)", "](/url \"t\")", "](<u v>)", "][", "[]", "[ref]", "[ref]: /url", "[ref]: <u> 'title'", "[ref]:", "\n[ref]: /u \"t\"\n",
-	"<http://a.b>", "<a@b.c>", "<mailto:x>", "http://a.b", "https://x.y/z?q=1&r=2", "www.a.b", "a@b.c", "ftp://f.g",
+	"<http://a.b>", "<a@b.c>", "<mailto:x>", "http://a.b", "mailto:", "(mailto:)", " tel:.", "tel:", "mailto:. ", "gopher://g.h", "*mailto:*", "_tel:_", "~mailto:~", "(tel:...)", "https://x.y/z?q=1&r=2", "www.a.b", "a@b.c", "ftp://f.g",
 	"\\", "\\*", "\\[", "\\\\", "\\\n", "  \n", "\\ ", "&", "&amp;", "&#35;", "&#x23;", "&#0;", "&#xD800;", "&#1234567;", "&foo;", "&copy", "&quot;", "&ouml;",
 	// extensions
 	"|", "| a | b |", "|---|---|", "| :-- | --: |", "|:-:|", "a | b", "--- | ---", "\\|", "~~", "~", "~~~", "[ ] ", "[x] ", "[X] ", "- [ ] ", "[^1]", "[^1]: ", "[^a]", "[^a]: note", "\n[^1]: n\n", "![^1]",
